@@ -262,17 +262,18 @@ theorem endsLike_of_suffix {e : List Char} (h : (noEolMod ++ escapedMod).isSuffi
 /-! ### reading a generated line back -/
 
 /-- the two parameters of the grammar model that matter here, as the real code has them:
-`\s` is Unicode white space, and the `escaped` constructor is `EscapedRule::make` -/
+`\s` is Unicode white space, and the `escaped` constructor (after the ` (no-eol)` strip, which
+`Grammar.makeRule` does itself) is `apply_escaped_filter_bytes` -/
 structure StdParams (P : Params) : Prop where
   white : ∀ c, P.isWhite c = unicodeWhite c
-  escaped : ∀ e, P.make .escaped e = escapedMake e
+  escaped : ∀ e, P.make .escaped e = decode e
 
 /-- the parameters as the real code has them; the constructors of the pattern kinds (`glob`,
 `regex`) and the renderer's escaper stay arbitrary: no generated line uses them -/
 def stdParams (mkGlob mkRegex : List Char → Option (List UInt8)) : Params :=
   { isWhite := unicodeWhite
     make := fun k e => match k with
-      | .escaped => escapedMake e
+      | .escaped => decode e
       | .glob => mkGlob e
       | .regex => mkRegex e
       | _ => none
@@ -369,9 +370,20 @@ theorem escaped_core {P : Params} (hP : StdParams P) {l c : List UInt8} {w : Lis
     (hlead : commandLead (w ++ escapedMod) = none) : LineOK P l (w ++ escapedMod) := by
   rw [escapedMod_eq] at hlead ⊢
   obtain ⟨h1, h2, h3⟩ := kindMod_line hP w .escaped hnl
+  have hs : Grammar.stripNoEol w = w := by
+    unfold Grammar.stripNoEol
+    split
+    · rename_i body hb
+      have hw := Grammar.stripSuffix_eq_some.mp hb
+      have : endsWithNoEol w = true := by
+        rw [hw]
+        simp [endsWithNoEol, List.isSuffixOf_iff_suffix, Rules.noEolSuffix, Grammar.noEolSuffix]
+      rw [hne] at this
+      cases this
+    · rfl
   have hmk : makeRule P .escaped w = some c := by
-    show P.make .escaped w = some c
-    rw [hP.escaped, escapedMake_eq_decode _ hne]
+    show P.make .escaped (Grammar.stripNoEol w) = some c
+    rw [hs, hP.escaped]
     exact htok.decode_eq
   rw [hmk] at h3
   refine ⟨h1, hlead, h2, _, h3, rfl, rfl, Or.inr (Or.inr rfl), ?_⟩
@@ -505,7 +517,7 @@ theorem commandLead_mods : commandLead noEolMod = none ∧ commandLead equalMod 
 theorem escapedExpectation_of (m : Mode) (isOther : Char → Bool) {c : List UInt8} (hlf : NoLF c) :
     escapedExpectation m isOther c =
       if (written m isOther c).1 = .equal then (written m isOther c).2
-      else (written m isOther c).2 ++ marker := by
+      else guardTailingNoEol (written m isOther c).2 ++ marker := by
   unfold escapedExpectation
   rw [trimNewlines_noLF hlf]
   split <;> rename_i e he <;> simp [he]
@@ -523,10 +535,10 @@ theorem line_ok {P : Params} (hP : StdParams P) (m : Mode) (isOther : Char → B
   | true =>
     rw [hu] at hk
     simp only [if_true] at hk
-    have hrep := written_rep m isOther hC c hlf hk
+    have hrep := (written_rep m isOther hC c hlf hk).guard_rep
     rw [hk] at hee
     simp only [reduceCtorEq, if_false] at hee
-    generalize (written m isOther c).2 = w at hee hrep
+    generalize guardTailingNoEol (written m isOther c).2 = w at hee hrep
     have hbody : expectationBody m isOther l = w ++ escapedMod := by
       simp only [expectationBody, hc, hu, if_true, hee]; rfl
     cases hcl : commandLead (w ++ escapedMod) with
